@@ -391,39 +391,63 @@ def w6(run, roles, L):
     fn = roles.walkers["process_tpms"]
     V = FnView(mod, fn)
     calls = V.calls(name=d)
-    with_count = [c for c in calls if kwarg(c, "count") is not None]
-    with_sel = [c for c in calls if kwarg(c, "selector") is not None]
-    run.ob("W6", len(with_count) == 1 and len(with_sel) == 1 and len(calls) == 3, "process_tpms: list / union / plain member decodes",
-           f"{len(calls)} decode sites ({len(with_count)} counted, {len(with_sel)} selected)", module=mod, node=fn, func=fn.name,
-           construct="process_tpms decode sites")
-    if with_count:
-        c = with_count[0]
-        cnt = V.resolve(kwarg(c, "count"), c)
-        m = match(cnt, "[M_v for M_v in values.values() if not is_list(type(M_v))][-1]")
-        run.ob("W6", m is not None, "list member: count is the last non-list value decoded so far",
-               f"count is `{norm(cnt)}`", module=mod, node=c, func=fn.name, construct="list count source")
-        br = c
-        while br is not None and not isinstance(br, ast.If):
-            br = getattr(br, "_parent", None)
-        run.ob("W6", br is not None and norm(br.test) == "is_list(field.type)", "list branch is taken for list-typed fields",
-               f"branch condition `{norm(br.test) if br is not None else None}`", module=mod, node=br or c, func=fn.name,
-               construct="list branch condition")
-    if with_sel:
-        c = with_sel[0]
-        sel = V.resolve(kwarg(c, "selector"), c)
-        ok = False
-        if isinstance(sel, ast.Subscript) and norm(sel.value) == "values":
-            key = V.resolve(sel.slice, c)
-            ok = norm(key) == "tpm_type._selectors[field.name]"
-        run.ob("W6", ok, "union member: selector is values[tpm_type._selectors[field.name]]", f"selector is `{norm(sel)}`",
-               module=mod, node=c, func=fn.name, construct="union selector source")
-        br = c
-        while br is not None and not isinstance(br, ast.If):
-            br = getattr(br, "_parent", None)
-        ok = br is not None and norm(br.test) == "hasattr(tpm_type, '_selectors') and field.name in tpm_type._selectors"
-        run.ob("W6", ok, "union branch is taken for fields listed in _selectors",
-               f"branch condition `{norm(br.test) if br is not None else None}`", module=mod, node=br or c, func=fn.name,
-               construct="union branch condition")
+    # the struct walker, specialised on every struct layout of L: each field's decode must carry exactly the inputs its
+    # kind needs (list: count = the last non-list value decoded so far; union: selector = the value decoded for the field
+    # that _selectors names, decoded before; plain: neither) - however the walker writes its branches
+    n_types = n_fields = 0
+    for k, c in sorted(L.all.items()):
+        if meaning_kind(L, c) != "struct" or not L.is_dataclass(c) or c in (L.Command, L.Response):
+            continue
+        sp = Specialiser(L, mod, fn, c, dispatcher=d, env={"parameter_encryption": ("const", None)})
+        traces = [s_ for s_ in sp.run() if s_.status == "return" and not any(e.kind == "iter" and e.data.get("field") is None for e in s_.trace)]
+        if len(traces) != 1:
+            # a branch of the walker depends on something other than the layout
+            run.ob("W6", False, f"{k}: one decode sequence per layout", f"{len(traces)} decode sequences for the layout {k}: the struct "
+                   "walker branches on something other than the declared fields", module=mod, node=fn, func=fn.name,
+                   construct="process_tpms decode sites")
+            continue
+        n_types += 1
+        tr = traces[0]
+        sels = L.dict_attr(c, "_selectors")
+        sels = {f_: s_ for f_, s_, _ in sels.items} if sels is not None else {}
+        procs = {e.data["field"]: e for e in tr.trace if e.kind == "process"}
+        unbound = [e for e in tr.trace if e.kind == "unbound_key"]
+        for fname, ftype in L.fields(c):
+            e = procs.get(fname)
+            if e is None:
+                run.ob("W6", False, f"{k}.{fname}: decoded", f"field {fname} of {k} is never decoded", module=mod, node=fn, func=fn.name,
+                       construct="process_tpms decode sites")
+                continue
+            n_fields += 1
+            kw = e.data["kwargs"]
+            extra = sorted(x for x in ("count", "selector") if x in kw and kw[x] != ("const", None))
+            if isinstance(ftype, ListT):
+                node = e.data["kw_nodes"].get("count")
+                cnt = V.resolve(node, e.node) if node is not None else None
+                m = match(cnt, "[M_v for M_v in values.values() if not is_list(type(M_v))][-1]") if cnt is not None else None
+                run.ob("W6", m is not None, f"{k}.{fname}: list member, count is the last non-list value decoded so far",
+                       f"count is `{norm(cnt) if cnt is not None else None}`", module=mod, node=e.node, func=fn.name,
+                       construct="list count source")
+                run.ob("W6", extra == ["count"], f"{k}.{fname}: list branch is taken for list-typed fields",
+                       f"the list field {fname} is decoded with inputs {extra} (branch condition of the list member changed)", module=mod,
+                       node=e.node, func=fn.name, construct="list branch condition")
+            elif fname in sels:
+                want = ("value", sels[fname])
+                got = kw.get("selector")
+                run.ob("W6", got == want, f"{k}.{fname}: union member, selector is values[{sels[fname]!r}]",
+                       f"selector is `{render(got) if got is not None else None}`", module=mod, node=e.node, func=fn.name,
+                       construct="union selector source")
+                run.ob("W6", extra == ["selector"], f"{k}.{fname}: union branch is taken for fields listed in _selectors",
+                       f"the union field {fname} is decoded with inputs {extra} (branch condition of the union member changed)",
+                       module=mod, node=e.node, func=fn.name, construct="union branch condition")
+                late = [u for u in unbound if u.data["key"] == sels[fname]]
+                run.ob("W6", not late, f"{k}.{fname}: its selector {sels[fname]} is decoded first",
+                       f"the selector field {sels[fname]} is read before it was decoded", module=mod, node=e.node, func=fn.name,
+                       construct="union selector source")
+            else:
+                run.ob("W6", not extra, f"{k}.{fname}: plain member", f"the plain field {fname} is decoded with inputs {extra}", module=mod,
+                       node=e.node, func=fn.name, construct="process_tpms decode sites")
+    run.require(n_types >= 100 and n_fields >= 300, f"W6: only {n_types} struct layouts / {n_fields} fields specialised")
     # every field that _selectors names is a union / every union field is named (from L) -> C20-T4; here: nothing else has a selector
     for k, c in L.all.items():
         if not L.is_dataclass(c) or c in (L.Command, L.Response):
@@ -457,55 +481,93 @@ def w6(run, roles, L):
 
 # ------------------------------------------------------------------------------ W7
 def w7(run, roles):
+    """union walker, decided on its path summaries: arm = inverted _selected_by at the selector, else at None, else a value
+    error; the arm's field is looked up by name; an arm without payload decodes to nothing; otherwise exactly one decode of
+    field.type at path / PathNode(field.name) (count = _list_size[member] for list arms) and the object holds that arm."""
+    from .. import paths
     mod = roles.mod
     fn = roles.walkers["process_tpmu"]
-    V = FnView(mod, fn)
     d = roles.dispatcher.name
-    inv = [s for s in walk_no_nested(fn) if isinstance(s, ast.Assign) and isinstance(s.value, ast.DictComp)]
-    ok = len(inv) == 1 and norm(inv[0].value) in ("{v: k for k, v in tpm_type._selected_by.items()}",
-                                                  "{value: key for key, value in tpm_type._selected_by.items()}")
+    S = paths.Summariser(mod, fn)
+    ps = [p for p in S.paths() if not (p.end == "raise" and p.value is not None and norm(p.value) == "AssertionError")]
+    run.require(len(ps) >= 5, "W7: paths of process_tpmu not found")
+    inv = {norm(e.targets[0]): e for p in ps for k, e, _ in p.effects if k == "assign" and isinstance(e.value, ast.DictComp)}
+    ok = len(inv) == 1 and match(list(inv.values())[0].value, "{M_v: M_k for M_k, M_v in tpm_type._selected_by.items()}") is not None
     run.ob("W7", ok, "arm lookup = inverted _selected_by (selector value -> member)",
-           f"selection map is `{norm(inv[0].value) if inv else None}`", module=mod, node=inv[0] if inv else fn, func=fn.name,
-           construct="selection map")
-    if not inv:
+           f"selection map is `{[norm(e.value) for e in inv.values()]}`", module=mod, node=fn, func=fn.name, construct="selection map")
+    if not ok:
         return
-    selmap = inv[0].targets[0].id
-    top = [s for s in fn.body if isinstance(s, ast.If) and selmap in norm(s.test)]
-    chain = if_chain(top[0]) if top else []
-    shape = [(norm(t) if t is not None else None, [norm(x).split("\n")[0][:60] for x in b]) for t, b in chain]
-    ok = len(chain) == 3 and shape[0][0] == f"selector in {selmap}" and len(chain[0][1]) == 1 and \
-        norm(chain[0][1][0]).endswith(f"= {selmap}[selector]") and shape[1][0] == f"None in {selmap}" and \
-        norm(chain[1][1][0]).endswith(f"= {selmap}[None]") and chain[2][0] is None and any(isinstance(x, ast.Raise) for x in chain[2][1])
-    run.ob("W7", ok, "member = map[selector], else the None (wildcard) member, else error",
-           f"selection chain is {[s[0] for s in shape]}", module=mod, node=top[0] if top else fn, func=fn.name,
-           construct="selection chain")
-    nx = [c for c in walk_no_nested(fn) if isinstance(c, ast.Call) and call_name(c) == "next" and c.args and isinstance(c.args[0], ast.GeneratorExp)]
-    ok = len(nx) == 1 and norm(nx[0].args[0].generators[0].iter) == "fields(tpm_type)" and len(nx[0].args[0].generators[0].ifs) == 1
-    if ok:
-        g = nx[0].args[0]
-        tv = g.generators[0].target.id
-        sel_name = norm(chain[0][1][0].targets[0]) if chain and isinstance(chain[0][1][0], ast.Assign) else None
-        ok = norm(g.elt) == tv and norm(g.generators[0].ifs[0]) == f"{tv}.name == {sel_name}"
-    run.ob("W7", ok, "the selected member is the field of that name", "member lookup by name changed", module=mod,
-           node=nx[0] if nx else fn, func=fn.name, construct="member lookup")
-    calls = V.calls(name=d)
-    for c in calls:
-        run.ob("W5", norm(c.args[0]) == "field.type" and norm(c.args[1]) == "path / PathNode(field.name)",
-               "process_tpmu: decodes field.type at path / PathNode(field.name)", f"decodes `{norm(c.args[0])}` at `{norm(c.args[1])}`",
-               module=mod, node=c, func=fn.name, construct="process_tpmu child")
-    lc = [c for c in calls if kwarg(c, "count") is not None]
-    ok = len(lc) == 1 and norm(kwarg(lc[0], "count")) == "tpm_type._list_size[field.name]"
-    run.ob("W6", ok, "union member of list type: count = _list_size[member]", f"count is `{norm(kwarg(lc[0], 'count')) if lc else None}`",
-           module=mod, node=lc[0] if lc else fn, func=fn.name, construct="union list arm count")
-    none_ret = [s for s in walk_no_nested(fn) if isinstance(s, ast.If) and norm(s.test) == "field.type is None"]
-    ok = len(none_ret) == 1 and len(none_ret[0].body) == 1 and norm(none_ret[0].body[0]) == "return (0, None)"
-    run.ob("W7", ok, "a member without payload decodes to nothing", "the `field.type is None` shortcut changed", module=mod,
-           node=none_ret[0] if none_ret else fn, func=fn.name, construct="empty member")
-    rets = [s for s in walk_no_nested(fn) if isinstance(s, ast.Return)]
-    last = fn.body[-1]
-    ok = isinstance(last, ast.Return) and isinstance(last.value, ast.Tuple) and "tpm_type(**{" in norm(last.value.elts[1])
-    run.ob("W7", ok, "union object holds exactly the selected member", f"returns `{norm(last.value) if isinstance(last, ast.Return) else None}`",
-           module=mod, node=last, func=fn.name, construct="process_tpmu return")
+    SEL = list(inv)[0]
+    A, B = f"selector in {SEL}", f"None in {SEL}"
+    n_dec = 0
+    for p in ps:
+        lab = " & ".join(("" if v else "not ") + a_[:50] for a_, v, _ in p.cond if a_ not in ("none is None", "hasattr(tpm_type, '_selected_by')"))
+        a_, b_ = p.truth(A), p.truth(B)
+        key = "selector" if a_ else "None" if (a_ is False and b_) else None
+        yfs = [(e, n) for k, e, n in p.effects if k == "yieldfrom"]
+        if a_ is False and b_ is False:
+            okr = p.end == "raise" and not yfs and (call_name(p.value) or "") == "ValueConstraintViolatedError"
+            run.ob("W7", okr, "a selector value without arm (and no wildcard arm) is a value error", f"[{lab}] ends with {p.end} "
+                   f"{p.value_text()}", module=mod, node=p.node or fn, func=fn.name, construct="selection chain")
+            continue
+        if key is None:
+            run.ob("W7", False, f"process_tpmu [{lab}]", "member = map[selector], else the None (wildcard) member, else error: this path "
+                   f"decides without consulting `{A}` / `{B}` in that order", module=mod, node=p.node or fn, func=fn.name,
+                   construct="selection chain")
+            continue
+        F = f"next((M_f for M_f in fields(tpm_type) if M_f.name == {SEL}[{key}]))"
+        empty = None
+        for c_, v_, _n in p.cond:
+            if c_.endswith(".type is None"):
+                okf = match(paths.pattern_expr(c_), f"{F}.type is None") is not None
+                run.ob("W7", okf, "the selected member is the field of that name", f"member lookup by name changed: `{c_}`", module=mod,
+                       node=_n, func=fn.name, construct="member lookup")
+                empty = v_
+        if empty is None:
+            run.ob("W7", False, f"process_tpmu [{lab}]", "the `field.type is None` shortcut changed: an arm is decoded without testing for "
+                   "an absent payload", module=mod, node=p.node or fn, func=fn.name, construct="empty member")
+            continue
+        if empty:
+            run.ob("W7", p.end == "return" and p.value_text() == "(0, None)" and not yfs, "a member without payload decodes to nothing",
+                   f"the `field.type is None` shortcut changed: [{lab}] gives {p.end} {p.value_text()}", module=mod,
+                   node=p.node or fn, func=fn.name, construct="empty member")
+            continue
+        n_dec += 1
+        if len(yfs) != 1 or not isinstance(yfs[0][0], ast.Call) or call_name(yfs[0][0]) != d:
+            run.ob("W5", False, f"process_tpmu [{lab}]", f"{len(yfs)} decodes for one arm", module=mod, node=p.node or fn, func=fn.name,
+                   construct="process_tpmu child")
+            continue
+        c = yfs[0][0]
+        okc = len(c.args) == 2 and match(c.args[0], f"{F}.type") is not None and match(c.args[1], f"path / PathNode({F}.name)") is not None
+        run.ob("W5", okc, "process_tpmu: decodes field.type at path / PathNode(field.name)",
+               f"decodes `{norm(c.args[0])[:80]}` at `{norm(c.args[1])[:80]}`" if len(c.args) == 2 else "positional arguments changed",
+               module=mod, node=yfs[0][1], func=fn.name, construct="process_tpmu child")
+        kws = {k.arg: k.value for k in c.keywords if k.arg}
+        for kn in ("size_constraints", "abort_on_error"):
+            run.ob("W5", kn in kws and norm(kws[kn]) == kn, f"process_tpmu: {kn} passed down", f"{kn} is "
+                   f"`{norm(kws[kn]) if kn in kws else None}`", module=mod, node=yfs[0][1], func=fn.name, construct=f"process_tpmu {kn}")
+        islist = None
+        for c_, v_, _n in p.cond:
+            if c_.startswith("is_list(") and match(paths.pattern_expr(c_), f"is_list({F}.type)") is not None:
+                islist = v_
+        cnt = kws.get("count")
+        has_cnt = cnt is not None and not (isinstance(cnt, ast.Constant) and cnt.value is None)
+        if islist:
+            okl = has_cnt and match(cnt, f"tpm_type._list_size[{F}.name]") is not None
+            run.ob("W6", okl, "union member of list type: count = _list_size[member]", f"count is `{norm(cnt) if cnt is not None else None}`",
+                   module=mod, node=yfs[0][1], func=fn.name, construct="union list arm count")
+        else:
+            run.ob("W6", islist is False and not has_cnt, "union member of scalar type: no count",
+                   f"count is `{norm(cnt) if cnt is not None else None}` on a path where the arm is "
+                   f"{'not known to be a list' if islist is None else 'not a list'}", module=mod, node=yfs[0][1], func=fn.name,
+                   construct="union list arm count")
+        extra = sorted(set(kws) - {"size_constraints", "abort_on_error", "count"})
+        run.ob("W6", not extra, "union arm decode takes no other inputs", f"extra inputs {extra}", module=mod, node=yfs[0][1],
+               func=fn.name, construct="process_tpmu child")
+        okr = p.end == "return" and p.value_text() == f"(_yf0[0], tpm_type(**{{{SEL}[{key}]: _yf0[1]}}))"
+        run.ob("W7", okr, "union object holds exactly the selected member", f"returns `{p.value_text()}`", module=mod, node=p.node or fn,
+               func=fn.name, construct="process_tpmu return")
+    run.require(n_dec >= 2, "W7: decoding paths of process_tpmu not found")
 
 
 # ------------------------------------------------------------------------------ framing
